@@ -64,7 +64,8 @@ def gen(ctx):
                 add('less %s %s %d all' % (A, B, a))
                 add('inc %s %s %d all' % (A, B, a))
                 for S in small:
-                    add('nat2 %s %s %s %d all' % (S, A, B, a))
+                    if ctx.thorough or (a + ctx.seed) % 2 == 0:
+                        add('nat2 %s %s %s %d all' % (S, A, B, a))
                     if ctx.thorough or (a * 7 + ctx.seed) % 4 == 0:
                         add('set2 %s %s %s %d all' % (S, A, B, a))
                 if ctx.thorough:        # wider result types with 8-bit arguments (only negative arguments give nothing)
@@ -182,12 +183,12 @@ def run(ctx):
     for o in (recs[5], recs[len(recs) // 2], recs[-3]):
         ctx.sample({k: (v if k not in ('out', 'last') else v[:4]) for k, v in o.items()})
     ctx.cov['rule'] = ('tlc_checked_cases counts helper evaluations (one recorded line holds one fixed leading argument and a list of last arguments). Complete: every '
-                       '8-bit x 8-bit value pair for Less<A,B>, IncreaseSum<A,B>, NaturalSum<S>(a,b) with S,A,B in {int8,uint8}%s. Lattice: for every ordered pair of the '
+                       '8-bit x 8-bit value pair for Less<A,B> and IncreaseSum<A,B> with A,B in {int8,uint8}; NaturalSum<S>(a,b)%s with S,A,B in {int8,uint8}. Lattice: for every ordered pair of the '
                        'eight types (and every result type for NaturalSum/SetToNaturalSumOrMax) the values min-1..min+1, -1, 0, 1, max-1..max+1 of every narrower-or-equal '
                        'type plus the b around max(S) - a; 16 type combinations of three-argument sums. driver_checked: Less, IncreaseSum, NaturalSum, SetToNaturalSumOrMax '
                        'over 16-bit x 16-bit (a in all, b in 65 lattice values + random values%s) against __int128, evaluated by the driver. Every evaluation has a distinct '
                        '(helper, types, values) tuple.' % (
-                           ' and SetToNaturalSumOrMax' if ctx.thorough else '; SetToNaturalSumOrMax on a quarter of the a values',
+                           ' and SetToNaturalSumOrMax on every pair' if ctx.thorough else ' on every b for half of the a values, SetToNaturalSumOrMax for a quarter',
                            '; thorough also all 2^32 pairs for result types int16/uint16' if ctx.thorough else ''))
     ctx.assumptions += ['UBSan makes signed overflow observable as the ub flag of a case: on explored values only',
                         '32- and 64-bit combinations are sampled on the boundary lattice, not exhaustively',
